@@ -7,7 +7,7 @@ from ..num import Num, Fail
 
 ID = "C05"
 LEVEL = "exploration"
-RULE = ("evaluation = one (operator, left operand, right operand) triple - the operator written as an expression `a op b` or, for + - * / % where the result keeps the left kind, as the op-assignment `t op= b` on a variable / a list element / an object field (stored, and USED AS A VALUE: `r = t op= b` on a variable / element / field / map entry) - whose operands reach the operator through "
+RULE = ("evaluation = one (operator, left operand, right operand) triple - the operator written as an expression `a op b` or, for + - * / % where the result keeps the left kind, as the op-assignment `t op= b` on a variable / a list element / an object field (stored, and USED AS A VALUE: `r = t op= b` on a variable / element / field / map entry / a variable captured by an escaped closure next to a same-named module variable) - whose operands reach the operator through "
         "run-time variables; enumerated part = every operator (+ - * / % < <= > >= == != on the 16 kind pairs, & | xor << >> "
         "on the 9 non-float pairs, unary - and !) x ALL pairs of the boundary-value set of each kind, plus every comparison of an integer with the doubles 0, 1 and 2 ulps (and 0.5) on either side of it in both operand orders; random part = "
         "Hypothesis operands. Oracle = exact arithmetic in Python ints / IEEE doubles + the statement's promotion table; "
@@ -46,7 +46,7 @@ def model(op, a, b):
 HOLDERS = "".join("class H%s {\n\tv: %s\n\tconstructor(self, v: %s) {\n\t\tself.v = v\n\t}\n}\n" % (k, k, k) for k in ("int", "bigint", "float", "byte")) + \
     "".join("class HO%s {\n\tv: %s?\n\tconstructor(self, v: %s?) {\n\t\tself.v = v\n\t}\n}\n" % (k, k, k) for k in ("int", "bigint", "float", "byte"))
 WRAPPED = ("wrapped-elem", "wrapped-field", "wrapped-entry", "wrapped-var")
-FORMS = ("expr", "var", "elem", "field", "var-value", "elem-value", "field-value", "entry-value")
+FORMS = ("expr", "var", "elem", "field", "var-value", "elem-value", "field-value", "entry-value", "captured-value")
 
 
 def pair_src(i, op, a, b, form="expr"):
@@ -74,7 +74,12 @@ def pair_src(i, op, a, b, form="expr"):
         exp = ["str:@%d" % i, "%s:%s" % (a.k, num.fmt(a)), "%s:%s" % (b.k, num.fmt(b))]
         if form.endswith("-value"):
             # the op-assignment USED AS A VALUE: it yields the result it stored (same kind, same value)
-            if form == "var-value":
+            if form == "captured-value":
+                # the target is a variable CAPTURED by a closure that outlived its factory; the module owns a variable of the same name
+                lines += ["mk%d = fn(s: %s) -> fn(%s) -> %s {" % (i, a.k, b.k, a.k), "\tcapt%d = s" % i, "\treturn fn(d: %s) -> %s {" % (b.k, a.k),
+                          "\t\tcapt%d %s= d" % (i, op), "\t\treturn capt%d" % i, "\t}", "}", "cl%d = mk%d(%s)" % (i, i, an), "capt%d: %s = %s" % (i, a.k, an),
+                          "r%d = cl%d(%s)" % (i, i, bn)]
+            elif form == "var-value":
                 lines += ["t%d: %s = %s" % (i, a.k, an), "r%d = t%d %s= %s" % (i, i, op, bn)]
             elif form == "elem-value":
                 lines += ["l%d: [%s...] = [%s, %s]" % (i, a.k, an, an), "r%d = l%d[1] %s= %s" % (i, i, op, bn)]
